@@ -159,7 +159,9 @@ def render_text(doc, style):
         else:
             text = uncps(t["text"])
             if style == "cdata" and "]]>" not in text:
-                text = "<![CDATA[" + text + "]]>"       # a CDATA section hands its content over verbatim
+                # a CDATA section hands its content over verbatim; white space between it and the tags is layout
+                k = (len(text) + len(out)) % 5
+                text = ["", " ", "\n", "\r\n  ", ""][k] + "<![CDATA[" + text + "]]>" + ["", "", "\n", " ", "\t"][k]
             out.append("<%s>%s" % (t["tag"], text))
             if style in ("xml", "cdata"):
                 out.append("</%s>" % t["tag"])
